@@ -7,6 +7,8 @@ package throttler
 //     (Signal/Release/Reset/Level/GetDelay), no timing involved: diffed exactly.
 //  B. Delay(ctx): table entries and contexts chosen with a >= 1 s gap between the
 //     two racing events, so that the winner of the select is not timing-sensitive.
+//     Only the outcome class (nil / context error) is diffed; measured durations are
+//     checked against upper bounds with 1.5 s slack by the oracle, never diffed.
 //  C. idle reset with a real timer: measured monotonic times are sent to the model
 //     (touch time = time measured BEFORE the call, so the model's deadline is never
 //     later than the real one); the observed reset is sent as a `fire <t>` step the
@@ -244,9 +246,16 @@ func TestVerifC36(t *testing.T) {
 				if err != nil {
 					verdict = "ctx"
 				}
+				// Only the outcome class is diffed; the model's wait is the nominal
+				// min(delay, context remaining) and is never replaced by a measurement.
+				// Wall-clock bounds are judged above, with tolerance, by the oracle.
 				w := int64(nominal)
-				if el < nominal || el > nominal+tol {
-					w = int64(el) // outside tolerance: report the measurement itself
+				if (err != nil) != wantErr { // unexpected outcome: show what the other branch would be
+					if err != nil {
+						w = int64(ctxLeft)
+					} else {
+						w = int64(d)
+					}
 				}
 				ops = append(ops, "delay "+ctxTok)
 				out = append(out, fmt.Sprintf("%s %d", verdict, w))
@@ -290,8 +299,10 @@ func TestVerifC36(t *testing.T) {
 			ops := []string{fmt.Sprintf("new %s 1 %d", c36TableTok(tableC), int64(idle))}
 			out := []string{"ok"}
 			early := 0
+			discarded := false
+		rounds:
 			for rd := 0; rd < rounds; rd++ {
-				var lastTouch int64
+				var lastTouch int64 = -1
 				for j := 0; j < nTouch; j++ {
 					if j > 0 {
 						time.Sleep(gaps[j])
@@ -301,6 +312,13 @@ func TestVerifC36(t *testing.T) {
 						th.Signal()
 					} else {
 						th.Release()
+					}
+					ta := now()
+					if lastTouch >= 0 && ta >= lastTouch+int64(idle) {
+						// the machine was too slow: the previous deadline may have passed before this
+						// touch, so what the timer did in between is unknown; drop the whole case
+						discarded = true
+						break rounds
 					}
 					lastTouch = tb
 					ops = append(ops, fmt.Sprintf("%s %d", kindsC[j], tb))
@@ -319,13 +337,18 @@ func TestVerifC36(t *testing.T) {
 					ops = append(ops, "level")
 					out = append(out, fmt.Sprint(lv))
 					early++
+				} else {
+					lv = -1 // unknown whether read before or after the reset
+				}
+				if lv == 0 {
+					// level already 0 (releases): the timer's firing cannot be observed; stop here
+					break rounds
 				}
 				// wait for the idle reset
-				deadline := time.Now().Add(10 * time.Second)
+				deadline := time.Now().Add(20 * time.Second)
 				fired := false
-				needReset := lv > 0
 				for time.Now().Before(deadline) {
-					if th.Level() == 0 && now() >= lastTouch+int64(idle) {
+					if th.Level() == 0 {
 						fired = true
 						break
 					}
@@ -335,21 +358,26 @@ func TestVerifC36(t *testing.T) {
 				if !fired {
 					rep.Fail("idle-reset-missing", fmt.Sprintf("idle %v: level still %d, %v after the last signal", idle, th.Level(), time.Duration(tf-lastTouch)),
 						map[string]interface{}{"ops": ops, "idle_ns": int64(idle)})
+					break rounds
 				}
-				if needReset && tf-lastTouch > int64(idle)+int64(5*time.Second) {
+				if tf < lastTouch+int64(idle) {
+					rep.Fail("idle-reset-early", fmt.Sprintf("idle %v: level returned to 0 only %v after the last signal", idle, time.Duration(tf-lastTouch)),
+						map[string]interface{}{"ops": ops, "idle_ns": int64(idle)})
+					break rounds
+				}
+				if tf-lastTouch > int64(idle)+int64(10*time.Second) {
 					rep.Fail("idle-reset-late", fmt.Sprintf("idle %v: reset observed %v after the last signal", idle, time.Duration(tf-lastTouch)),
 						map[string]interface{}{"ops": ops, "idle_ns": int64(idle)})
 				}
-				// allow the timer goroutine (which may still be running Reset) to finish
-				time.Sleep(5 * time.Millisecond)
-				ops = append(ops, fmt.Sprintf("fire %d", tf))
-				if fired {
-					out = append(out, "fired")
-				} else {
-					out = append(out, "not-observed")
-				}
-				ops = append(ops, "level")
-				out = append(out, fmt.Sprint(th.Level()))
+				// level 0 was observed, i.e. the timer's Reset has taken effect (it holds t.mu
+				// while zeroing the level and stopping the timer)
+				time.Sleep(2 * time.Millisecond)
+				ops = append(ops, fmt.Sprintf("fire %d", tf), "level")
+				out = append(out, "fired", fmt.Sprint(th.Level()))
+			}
+			if discarded {
+				rep.Count("C:discarded-machine-too-slow")
+				return
 			}
 			mu.Lock()
 			allOps = append(allOps, ops)
